@@ -966,6 +966,9 @@ func main() {
 			mode = "live"
 		} else if r%5 == 3 {
 			mode = "script"
+		} else if r%10 == 1 {
+			runMulti(out, rng.Fork(uint64(r)), r)
+			continue
 		}
 		runOnce(out, rng.Fork(uint64(r)), r, mode)
 	}
